@@ -7,3 +7,9 @@ pub(crate) mod c03 {
     use super::super::*;
     include!(concat!(env!("LIBP2P_VERIF"), "/units/C03/connection_id.rs"));
 }
+
+pub(crate) mod c10 {
+    #[allow(unused_imports)]
+    use super::super::*;
+    include!(concat!(env!("LIBP2P_VERIF"), "/units/C10/shutdown.rs"));
+}
